@@ -86,28 +86,36 @@ def run(chk):
         groups[rid] = (r, [M.decode(c) for c in ops], set(ops))
 
     if chk.want("T02.2"):
+        import numpy as np
+        RW = np.array(M.R_WEIGHTS, dtype=np.int64).reshape(3, 3)
+        TW = np.array(M.T_WEIGHTS, dtype=np.int64)
         for rid, (r, ops, codes) in groups.items():
             bad = None
             if M.IDENTITY not in codes:
                 bad = "identity missing"
+            elif not all(M.valid_entries(a[0]) for a in ops):
+                bad = "rotation entry outside {-1,0,1}"
             else:
                 for a in ops:
                     ia = M.inverse(a)
                     if ia is None or M.encode(*ia) not in codes:
                         bad = f"inverse of {M.encode(*a)} missing"
                         break
-                    if not M.valid_entries(a[0]):
-                        bad = "rotation entry outside {-1,0,1}"
-                        break
-                if bad is None:
-                    for a in ops:
-                        for b in ops:
-                            c = M.compose(a, b)
-                            if not M.valid_entries(c[0]) or M.encode(*c) not in codes:
-                                bad = f"{M.encode(*a)} o {M.encode(*b)} = {M.encode(*c) if M.valid_entries(c[0]) else c} not in the row"
-                                break
-                        if bad:
-                            break
+            if bad is None:
+                # all n^2 compositions at once, in exact integer arithmetic (same model as sgmodel.compose)
+                R = np.array([a[0] for a in ops], dtype=np.int64).reshape(-1, 3, 3)
+                T = np.array([a[1] for a in ops], dtype=np.int64)
+                RR = np.einsum("aij,bjk->abik", R, R)
+                TT = (np.einsum("aij,bj->abi", R, T) + T[:, None, :]) % 12
+                if np.abs(RR).max() > 1:
+                    bad = "a product has a rotation entry outside {-1,0,1}"
+                else:
+                    prod = ((RR + 1) * RW).sum(axis=(2, 3)) + (TT * TW).sum(axis=2) * M.ROT_RADIX
+                    inside = np.isin(prod, np.array(sorted(codes), dtype=np.int64))
+                    if not inside.all():
+                        ai, bi = np.argwhere(~inside)[0]
+                        c = M.compose(ops[ai], ops[bi])
+                        bad = f"{M.encode(*ops[ai])} o {M.encode(*ops[bi])} = {M.encode(*c)} not in the row"
             chk.ob("T02.2", TABLE, f"setting {rid}", f"the {len(ops)} operations form a group modulo the lattice", bad is None,
                    fingerprint=f"group:{rid}", found=bad)
     if chk.want("T02.3"):
